@@ -213,7 +213,10 @@ package kv
 //@ ensures old(len(putReq.SequenceKeyDelta)) > 0 ==> ghost(seqUpdates, d.sequenceWaiterTracker) == old(ghost(seqUpdates, d.sequenceWaiterTracker)) + 1
 //@ ensures d.versionIdTracker.v == old(d.versionIdTracker.v) || d.versionIdTracker.v == old(d.versionIdTracker.v) + 1
 //@ ensures err == nil ==> res != nil
-//@ modifies *
+//@ ensures internal ==> d.versionIdTracker.v == old(d.versionIdTracker.v)
+//@ ensures err == nil && internal && old(len(putReq.SequenceKeyDelta)) == 0 ==> ghset(present, batch, putReq.Key) && putReq.Key == old(putReq.Key)
+//@ ensures err == nil && internal && old(len(putReq.SequenceKeyDelta)) == 0 ==> forall k string :: old(ghset(present, batch, k)) ==> ghset(present, batch, k)
+//@ modifies d.versionIdTracker.v, putReq.Key, ghset(present, batch), ghost(seqUpdates, d.sequenceWaiterTracker), fields(proto.StorageEntry), fields(map[string]*proto.Notification), cells(uint64), cells(int64), cells(int)
 
 // ---------------------------------------------------------------- sequence waiters (C16)
 
@@ -259,10 +262,15 @@ package kv
 //@ trusted
 //@ modifies nothing
 
+// rangeCount names the number of records a range scan is about to deliver (it is a
+// function of the batch object and the bounds only: meaningful for one scan per
+// function, which is how it is used).
+//@ ghostfun rangeCount(WriteBatch, string, string) int
+
 //@ func WriteBatch.RangeScan(recv, lowerBound, upperBound) (it, err)
 //@ trusted
 //@ modifies nothing
-//@ ensures err == nil ==> it != nil && fresh(it) && ghost(remaining, it) >= 0
+//@ ensures err == nil ==> it != nil && fresh(it) && ghost(remaining, it) >= 0 && ghost(remaining, it) == rangeCount(recv, lowerBound, upperBound)
 
 //@ func WriteBatch.DeleteRange
 //@ trusted
@@ -291,13 +299,14 @@ package kv
 //
 //@ func db.applyDeleteRange(d, batch, notifications, delReq, updateOperationCallback) (res, err)
 //@ property C15 C12 C13
-//@ ghost n int
-//@ requires batch != nil && delReq != nil && updateOperationCallback != nil && d.log != nil && n >= 0 && (notifications != nil ==> nbOk(notifications))
-//@ assume at call RangeScan#0: err == nil ==> ghost(remaining, it) == n because "n names the number of records in the range (ghost parameter)"
-//@ loop 0 invariant it != nil && ghost(remaining, it) >= 0 && ghost(deleteCallbacks, updateOperationCallback) + ghost(remaining, it) == old(ghost(deleteCallbacks, updateOperationCallback)) + n
-//@ loop 1 invariant ghost(deleteCallbacks, updateOperationCallback) == old(ghost(deleteCallbacks, updateOperationCallback)) + n
-//@ ensures err == nil ==> ghost(deleteCallbacks, updateOperationCallback) == old(ghost(deleteCallbacks, updateOperationCallback)) + n
-//@ modifies *
+//@ requires batch != nil && delReq != nil && updateOperationCallback != nil && d.log != nil && (notifications != nil ==> nbOk(notifications))
+//@ loop 0 modifies ghost(remaining, it), ghost(deleteCallbacks, updateOperationCallback), ghset(present, batch), fields(proto.StorageEntry), fresh
+//@ loop 0 invariant (validKeys == nil || fresh(validKeys)) && fresh(it)
+//@ loop 0 invariant it != nil && ghost(remaining, it) >= 0 && ghost(deleteCallbacks, updateOperationCallback) + ghost(remaining, it) == old(ghost(deleteCallbacks, updateOperationCallback)) + rangeCount(batch, delReq.StartInclusive, delReq.EndExclusive)
+//@ loop 1 modifies ghset(present, batch), fresh
+//@ loop 1 invariant ghost(deleteCallbacks, updateOperationCallback) == old(ghost(deleteCallbacks, updateOperationCallback)) + rangeCount(batch, delReq.StartInclusive, delReq.EndExclusive)
+//@ ensures err == nil ==> ghost(deleteCallbacks, updateOperationCallback) == old(ghost(deleteCallbacks, updateOperationCallback)) + rangeCount(batch, delReq.StartInclusive, delReq.EndExclusive)
+//@ modifies ghset(present, batch), ghost(deleteCallbacks, updateOperationCallback), fields(proto.StorageEntry), fields(map[string]*proto.Notification)
 
 //@ func notifications.Deleted(n, key)
 //@ property C17
@@ -318,7 +327,7 @@ package kv
 //@ property C12 C13
 //@ requires batch != nil && delReq != nil && updateOperationCallback != nil && d.log != nil && (notifications != nil ==> nbOk(notifications))
 //@ ensures err == nil ==> res != nil
-//@ modifies *
+//@ modifies ghset(present, batch), fields(proto.StorageEntry), fields(map[string]*proto.Notification)
 
 // ---------------------------------------------------------------- notification retention (C17)
 
@@ -349,3 +358,92 @@ package kv
 //@ ensures err == nil ==> forall o int64 :: res < o && o <= old(lastOffset) ==> timeKey(cutoffTime) < nbTime(t, o)
 //@ ensures err == nil && res > old(firstOffset) ==> !(timeKey(cutoffTime) < nbTime(t, res))
 //@ modifies nothing
+
+// ---------------------------------------------------------------- one logged write request (C07, C12, C17)
+
+//@ func KV.NewWriteBatch
+//@ trusted
+//@ modifies nothing
+//@ ensures result != nil && fresh(result) && ghost(commits, result) == 0
+//@ ensures forall k string :: !ghset(present, result, k)
+
+// Committing is the only way a batch reaches the database, and it is counted.
+//@ func WriteBatch.Commit(recv) (err)
+//@ trusted
+//@ modifies ghost(commits, recv)
+//@ ensures ghost(commits, recv) == old(ghost(commits, recv)) + 1
+
+//@ func WriteBatch.Close
+//@ trusted
+//@ modifies nothing
+
+//@ ghostfun nbKey(int64) string
+
+//@ func notificationKey
+//@ trusted
+//@ pure
+//@ ensures result == nbKey(offset)
+//@ note trusted: fmt.Sprintf of the offset as 16 hex digits under the notifications prefix
+
+//@ func newNotifications(shardId, offset, timestamp) (n)
+//@ property C17
+//@ ensures nbOk(n) && fresh(n) && n.batch.Shard == shardId && n.batch.Offset == offset && n.batch.Timestamp == timestamp
+//@ ensures forall k string :: !inmap(n.batch.Notifications, k)
+//@ modifies nothing
+
+//@ func notificationsTracker.UpdatedCommitOffset
+//@ trusted
+//@ modifies nt.lastOffset.v
+//@ ensures nt.lastOffset.v == offset
+
+//@ func db.addNotifications(recv, batch, notifications) (err)
+//@ property C17 C07
+//@ requires batch != nil && notifications != nil
+//@ ensures err == nil ==> ghset(present, batch, nbKey(notifications.batch.Offset)) && forall k string :: old(ghset(present, batch, k)) ==> ghset(present, batch, k)
+//@ modifies ghset(present, batch)
+
+//@ func db.addASCIILong(d, key, value, batch, timestamp) (err)
+//@ property C07
+//@ assume NoOpCallback != nil because "package-level singleton callback, never reassigned"
+//@ requires batch != nil && d.sequenceWaiterTracker != nil && d.log != nil && d.versionIdTracker.v >= -1 && d.versionIdTracker.v < 4611686018427387904
+//@ ensures err == nil ==> ghset(present, batch, key) && forall k string :: old(ghset(present, batch, k)) ==> ghset(present, batch, k)
+//@ ensures d.versionIdTracker.v == old(d.versionIdTracker.v)
+//@ modifies ghset(present, batch), ghost(seqUpdates, d.sequenceWaiterTracker), fields(proto.StorageEntry), fields(map[string]*proto.Notification), cells(uint64), cells(int64), cells(int)
+
+// applyWriteRequest: one response per operation, puts first, then deletes, then range
+// deletes; a notification batch exists exactly when notifications are enabled and is the
+// batch of this commit offset.
+//
+//@ func db.applyWriteRequest(d, b, batch, commitOffset, timestamp, updateOperationCallback) (nb, res, err)
+//@ property C12 C17
+//@ requires b != nil && batch != nil && updateOperationCallback != nil && d.sequenceWaiterTracker != nil && d.log != nil && d.putCounter != nil && d.deleteCounter != nil && d.deleteRangesCounter != nil
+//@ requires d.versionIdTracker.v >= -1 && d.versionIdTracker.v + len(b.Puts) < 4611686018427387904
+//@ requires forall i int :: 0 <= i && i < len(b.Puts) ==> b.Puts[i] != nil
+//@ requires forall i int :: 0 <= i && i < len(b.Deletes) ==> b.Deletes[i] != nil
+//@ requires forall i int :: 0 <= i && i < len(b.DeleteRanges) ==> b.DeleteRanges[i] != nil
+//@ loop 0 invariant res != nil && len(res.Puts) == rangeindex + 1 && len(res.Deletes) == 0 && len(res.DeleteRanges) == 0 && (notifications != nil ==> nbOk(notifications) && notifications.batch.Offset == commitOffset) && (notifications != nil <==> old(d.notificationsEnabled)) && d.versionIdTracker.v >= old(d.versionIdTracker.v) && d.versionIdTracker.v <= old(d.versionIdTracker.v) + rangeindex + 1 && ghost(commits, batch) == old(ghost(commits, batch))
+//@ loop 1 invariant res != nil && len(res.Puts) == len(b.Puts) && len(res.Deletes) == rangeindex + 1 && len(res.DeleteRanges) == 0 && (notifications != nil ==> nbOk(notifications) && notifications.batch.Offset == commitOffset) && (notifications != nil <==> old(d.notificationsEnabled)) && d.versionIdTracker.v >= old(d.versionIdTracker.v) && d.versionIdTracker.v <= old(d.versionIdTracker.v) + len(b.Puts) && ghost(commits, batch) == old(ghost(commits, batch))
+//@ loop 2 invariant res != nil && len(res.Puts) == len(b.Puts) && len(res.Deletes) == len(b.Deletes) && len(res.DeleteRanges) == rangeindex + 1 && (notifications != nil ==> nbOk(notifications) && notifications.batch.Offset == commitOffset) && (notifications != nil <==> old(d.notificationsEnabled)) && d.versionIdTracker.v >= old(d.versionIdTracker.v) && d.versionIdTracker.v <= old(d.versionIdTracker.v) + len(b.Puts) && ghost(commits, batch) == old(ghost(commits, batch))
+//@ ensures err == nil ==> res != nil && len(res.Puts) == len(b.Puts) && len(res.Deletes) == len(b.Deletes) && len(res.DeleteRanges) == len(b.DeleteRanges)
+//@ ensures err == nil ==> (nb != nil <==> old(d.notificationsEnabled)) && (nb != nil ==> nbOk(nb) && nb.batch.Offset == commitOffset)
+//@ ensures d.versionIdTracker.v >= old(d.versionIdTracker.v) && d.versionIdTracker.v <= old(d.versionIdTracker.v) + len(b.Puts) && ghost(commits, batch) == old(ghost(commits, batch))
+//@ modifies d.versionIdTracker.v, ghset(present, batch), ghost(seqUpdates, d.sequenceWaiterTracker), ghost(deleteCallbacks, updateOperationCallback), fields(proto.PutRequest), fields(proto.StorageEntry), fields(map[string]*proto.Notification), cells(uint64), cells(int64), cells(int)
+
+// ProcessWrite: one write batch per logged request, committed exactly once and only
+// after it holds the commit offset, the last version id and (when notifications are
+// enabled) the notification batch of this offset — so a crash leaves either all of them
+// or none; the notifications tracker learns about the offset only after the commit;
+// one response per operation.
+//
+//@ func db.ProcessWrite(d, b, commitOffset, timestamp, updateOperationCallback) (res, err)
+//@ property C07 C12 C17
+//@ requires b != nil && d.kv != nil && updateOperationCallback != nil && d.sequenceWaiterTracker != nil && d.log != nil && d.putCounter != nil && d.deleteCounter != nil && d.deleteRangesCounter != nil && d.batchWriteLatencyHisto != nil && d.notificationsTracker != nil
+//@ requires d.versionIdTracker.v >= -1 && d.versionIdTracker.v + len(b.Puts) < 4611686018427387904
+//@ requires forall i int :: 0 <= i && i < len(b.Puts) ==> b.Puts[i] != nil
+//@ requires forall i int :: 0 <= i && i < len(b.Deletes) ==> b.Deletes[i] != nil
+//@ requires forall i int :: 0 <= i && i < len(b.DeleteRanges) ==> b.DeleteRanges[i] != nil
+//@ assert at call Commit#0: ghost(commits, batch) == 0 && ghset(present, batch, "__oxia/commit-offset") && ghset(present, batch, "__oxia/last-version-id") && (old(d.notificationsEnabled) ==> notifications != nil && ghset(present, batch, nbKey(commitOffset)))
+//@ assert at call UpdatedCommitOffset#0: ghost(commits, batch) == 1 && offset == commitOffset
+//@ ensures err == nil ==> res != nil && len(res.Puts) == len(b.Puts) && len(res.Deletes) == len(b.Deletes) && len(res.DeleteRanges) == len(b.DeleteRanges)
+//@ ensures d.versionIdTracker.v >= old(d.versionIdTracker.v) && d.versionIdTracker.v <= old(d.versionIdTracker.v) + len(b.Puts)
+//@ modifies *
